@@ -172,8 +172,11 @@ fn check_dfs<D: Order + OutNeighbors + Clone>(d: &D, other: &D, other_src: &[usi
     );
     if n <= 24 && src.len() == 1 && m.size() % 6 == 1 {
         crate::obs::iter_consistency(o, "Dfs", || Dfs::new(d, src.iter().copied()));
+        crate::obs::clone_midway(o, "Dfs", || Dfs::new(d, src.iter().copied()));
         crate::obs::iter_consistency(o, "DfsDist", || DfsDist::new(d, src.iter().copied()));
+        crate::obs::clone_midway(o, "DfsDist", || DfsDist::new(d, src.iter().copied()));
         crate::obs::iter_consistency(o, "DfsPred", || DfsPred::new(d, src.iter().copied()));
+        crate::obs::clone_midway(o, "DfsPred", || DfsPred::new(d, src.iter().copied()));
     }
     // Each iterator is judged on its own sequence above. The statement does
     // not ask the three to pick the same preorder among the valid ones, so a
